@@ -797,8 +797,74 @@ def main():
                 bad = "lookup by name differs from the constructor"
             if bad:
                 ck.violation("C15/conjugacy_classes", f"conjugacy_classes({n}, {{{tuple(key)}: None}}): {bad}", {"case": case})
+    # several classes in one call, with sample counts 0, 1, 2 next to enumerated classes: generator count, cycle types
+    # block by block and the documented graph name
+    for n in (4, 5, 6, 7):
+        parts = [p for p in partitions(n) if len(p) != p.count(1) and class_size(n, p) <= 300]
+        for _ in range(4):
+            keys = rng.sample(parts, min(len(parts), rng.randint(2, 3)))
+            counts = [rng.choice([None, 0, 0, 1, 2]) for _ in keys]
+            if all(c == 0 for c in counts):
+                counts[0] = None
+            classes = {tuple(k): c for k, c in zip(keys, counts)}
+            case = {"family": "conjugacy_classes-multi", "n": n, "classes": [[list(k), c] for k, c in classes.items()]}
+            ck.case(["conjugacy_classes-multi", n, case["classes"]], True)
+            ck.count("conjugacy_classes: several classes")
+            try:
+                d = PG.conjugacy_classes(n, classes)
+            except (AssertionError, ValueError, KeyError, IndexError) as ex:
+                ck.violation("C15/conjugacy_classes/raises", f"conjugacy_classes({n}, {classes}) raised {type(ex).__name__}: {ex}", {"case": case})
+                continue
+            gens = [list(map(int, g)) for g in d.generators_permutations]
+            want_n = sum(class_size(n, k) if c is None else c for k, c in zip(keys, counts))
+            pos, bad = 0, None
+            for k, c in zip(keys, counts):
+                m = class_size(n, k) if c is None else c
+                if any(cycle_type(g) != k for g in gens[pos : pos + m]):
+                    bad = f"class {k}: a generator of another cycle type"
+                pos += m
+            want_name = f"conjugacy_class-{n}-" + "-".join(",".join(map(str, k)) + ("" if c is None else f"_{c}") for k, c in zip(keys, counts))
+            if len(gens) != want_n:
+                bad = f"{len(gens)} generators, {want_n} requested"
+            elif not bad and d.name != want_name:
+                bad = f"name {d.name!r} instead of {want_name!r}"
+            if bad:
+                ck.violation("C15/conjugacy_classes/multi", f"conjugacy_classes({n}, {classes}): {bad}", {"case": case})
+    # rand_generators(n, k): exactly k pairwise distinct permutations of n points, named after themselves, for every k
+    # up to the documented maximum n! (then the generator set is all of S_n)
+    import numpy as _np
+    from math import factorial as _fact
+
+    rg_cases = [(n, k) for n in (1, 2, 3, 4) for k in sorted({1, 2, _fact(n) // 2 or 1, _fact(n) - 1 or 1, _fact(n)}) if 1 <= k <= _fact(n)] + [(5, 120), (5, 119), (6, 720), (7, 5040), (9, 7)]
+    if ck.thorough:
+        rg_cases += [(8, 40320), (8, 40319), (7, 5039)]
+    for n, k in rg_cases:
+        if ck.enough():
+            break
+        _np.random.seed(ck.rng.randrange(2**31))
+        case = {"family": "rand_generators", "n": n, "k": k}
+        ck.case(["rand_generators", n, k], True)
+        ck.count("rand_generators")
+        try:
+            d = PG.rand_generators(n, k)
+            d2 = prepare_graph("rand_generators", n=n, k=k)
+        except (AssertionError, ValueError, KeyError, IndexError) as ex:
+            ck.violation("C15/rand_generators/raises", f"rand_generators({n}, {k}) raised {type(ex).__name__}: {ex}", {"case": case})
+            continue
+        for dd, how in ((d, "constructor"), (d2, "lookup")):
+            gens = [tuple(map(int, g)) for g in dd.generators_permutations]
+            bad = None
+            if len(gens) != k:
+                bad = f"{len(gens)} generators instead of k = {k}"
+            elif len(set(gens)) != k or any(sorted(g) != list(range(n)) for g in gens):
+                bad = "generators are not pairwise distinct permutations"
+            elif list(dd.generator_names) != [f"({','.join(map(str, g))})" for g in gens] or dd.name != f"rand_generators-{n}-{k}" or list(dd.central_state) != list(range(n)):
+                bad = "names / graph name / central state are not the documented ones"
+            if bad:
+                ck.violation("C15/rand_generators", f"rand_generators({n}, {k}) via {how}: {bad}", {"case": case})
+                break
     ck.assumptions = [
-        "sampling constructors (rand_generators, conjugacy_classes with sampling) are checked for validity only through C20; sheveleva2 by the exhaustive comparison with the Lean specification when available",
+        "sampled members of conjugacy classes are checked through C20 (cycle types, counts per class); rand_generators for counts, distinctness and names here; sheveleva2 by the exhaustive comparison with the Lean specification when available",
         "group orders by Schreier-Sims (sympy, tooling venv) for sizes <= 8 where the documentation names the group",
     ]
     ck.finish(rule="every constructor x every admissible n up to 9 (12 thorough; smaller caps for families with factorially many generators) and every k / subset / add_inverses: generators, names, central state, name compared EXACTLY with a closed-form specification written from the documentation; documented counts and inverse-closedness; name dispatch; group orders for enumerable sizes", exhaustive=True)
